@@ -228,9 +228,13 @@ def run_op(gb, keys_objs, step, case, values, mask):
         return gb.key_count
     if op == "factorize_2d":
         ks = keys_objs if len(keys_objs) > 1 else [keys_objs[0], keys_objs[0]]
-        return F.factorize_2d(*ks)
+        return F.factorize_2d(*ks, factorize_in_parallel=not any(isinstance(k, pl.Series) for k in ks))
     if op == "crosstab":
         k2 = keys_objs[1] if len(keys_objs) > 1 else keys_objs[0]
+        if any(isinstance(k, pl.Series) for k in (keys_objs[0], k2)):
+            # the library factorizes several keys in a thread pool; converting polars Series from two Python threads
+            # dead-locked (while holding the GIL, so no watchdog can fire) in this long-lived process: not generated
+            raise Rejected("crosstab:polars-keys-in-thread-pool (dead-lock hazard, see DESIGN 7.3)")
         return crosstab(keys_objs[0], k2, values, aggfunc="sum")
     raise ValueError(op)
 
